@@ -1,9 +1,11 @@
 (* Props/C04.v — property theorems only.  C04: vehicle energy stays physical and fully accounted for.
-   Statements are about the kernels regenerated from /repo on every run (Gen/Kernels.v). *)
+   Statements are about the kernels regenerated from /repo on every run (Gen/Kernels.v); the last theorem lifts the accounting
+   identity to every history of the step model through the vehicle frame theorem (Proofs/VehFrame.v). *)
 From Hive.Base Require Import Prelude.
 From Hive.Model Require Import Types KernelBase.
 From Hive.Gen Require Import Kernels.
-From Hive.Proofs Require Import Energy.
+From Hive.Model Require Import SimOps States Step.
+From Hive.Proofs Require Import Energy VehFrame.
 Local Open Scope Q_scope.
 
 (* consume_energy / idle, both powertrains: level stays in [0, level before]; what left the tank is exactly
@@ -64,6 +66,14 @@ Theorem C04_add_energy_ice : forall m v c t, (0 <= t)%Z -> 0 <= c_rate c -> v_en
   add_spec m v c t (fst (ice_add_energy m v c t)).
 Proof. exact ice_add_energy_spec. Qed.
 
+(* over EVERY finite history of operations of the step alphabet, with instructions from ANY controller: no vehicle is dropped or
+   re-keyed, its powertrain and membership never change, and its stored energy always equals initial + gained - expended
+   (balance v := energy - gained + expended is invariant), for both powertrains, unconditionally *)
+Theorem C04_energy_accounted_over_histories : forall env ops s0, vkeys s0 -> forall vid v0, find vid (vehicles s0) = Some v0 ->
+  exists v, find vid (vehicles (fold_left (step_op env) ops s0)) = Some v /\
+            v_id v = v_id v0 /\ v_mem v = v_mem v0 /\ v_mech v = v_mech v0 /\ balance v == balance v0.
+Proof. exact history_vehicle_frame. Qed.
+Print Assumptions C04_energy_accounted_over_histories.
 Print Assumptions C04_consume_bounds_bev. Print Assumptions C04_consume_bounds_ice.
 Print Assumptions C04_consume_books_bev. Print Assumptions C04_consume_books_ice.
 Print Assumptions C04_consume_frame_bev. Print Assumptions C04_consume_frame_ice.
